@@ -161,6 +161,10 @@ def Mem.newNode (cfg : Cfg) (s : Mem) (size : Nat) : Mem × Nat :=
     let (s, b, c) := s.mallocMem cfg (if size < cfg.linkBufferCap then cfg.linkBufferCap else size)
     ({ s with nodes := s.nodes ++ [{ block := some b, cap := c }] }, id)
 
+/-- `node.buf, node.origin, node.next = nil, nil, nil; linkedPool.Put(node)` at reference count zero -/
+def NodeS.recycle (nd : NodeS) : NodeS :=
+  { nd with refer := 0, block := none, lo := 0, blen := 0, cap := 0, origin := none, recycled := nd.recycled + 1 }
+
 /-- the part of `node.Release()` after the origin: drop one reference; at zero free the memory of a
 reusable node and put the struct back (`node.buf, node.origin, node.next = nil, nil, nil`). -/
 def Mem.releaseSelf (cfg : Cfg) (s : Mem) (i : Nat) : Option Mem :=
@@ -169,8 +173,7 @@ def Mem.releaseSelf (cfg : Cfg) (s : Mem) (i : Nat) : Option Mem :=
   | some nd =>
     if nd.refer - 1 = 0 then
       let s := if nd.unmanaged then s else s.freeMem cfg nd.block nd.cap
-      some (s.setNode i { nd with refer := 0, block := none, lo := 0, blen := 0, cap := 0, origin := none,
-                                  recycled := nd.recycled + 1 })
+      some (s.setNode i nd.recycle)
     else some (s.setNode i { nd with refer := nd.refer - 1 })
 
 /-- `node.Release()`: the origin first, then the node itself.  `fuel` bounds the origin chain
@@ -379,14 +382,16 @@ def skip (s : Mem) (b : Buf) (n : Int) : Option (Mem × Buf) :=
     if b.length < n then some (s, b)
     else onReadSuffix s (b.consumeLen n) (skipLoop · n)
 
-/-- free `b.caches` in order, then `b.cachePeek` -/
+/-- `cap` of the whole block -/
+def Mem.blockCap (s : Mem) (blk : Nat) : Nat :=
+  match s.blocks[blk]? with
+  | some bl => bl.cap
+  | none => 0
+
+/-- free `b.caches` in order -/
 def freeCaches (cfg : Cfg) (s : Mem) : List Nat → Mem
   | [] => s
-  | blk :: rest =>
-    let c := match s.blocks[blk]? with
-      | some bl => bl.cap
-      | none => 0
-    freeCaches cfg (s.freeMem cfg (some blk) c) rest
+  | blk :: rest => freeCaches cfg (s.freeMem cfg (some blk) (s.blockCap blk)) rest
 
 /-- `Release()` (without the ghost end of the views) -/
 def releaseCore (cfg : Cfg) (s : Mem) (b : Buf) : Option (Mem × Buf) :=
